@@ -66,6 +66,7 @@ func (x *Exec) acquire(s *State, busy *Term, kind string, id int) (blocked bool)
 func init() {
 	one, zero := func(x *Exec) *Term { return x.tb.BV(32, 1) }, func(x *Exec) *Term { return x.tb.BV(32, 0) }
 	blockingIntrinsics["(*sync.Mutex).Lock"] = func(x *Exec, s *State, c *CallCtx) (Value, bool) {
+		x.maybePreempt(s)
 		p := c.Args[0].(*PtrVal)
 		held := x.tb.Not(x.tb.Eq(x.cellGet(s, p, 0), zero(x)))
 		if x.acquire(s, held, "lock", x.objID(p)) {
